@@ -245,6 +245,12 @@ def consumed(prog, chk):
                     names = [k["str"] for k in o[1]["array"] if isinstance(k, dict) and "str" in k]
             where = b.where(bb, t.get("line"))
             root = prog.bodies[b.root].path if b.root and b.root in prog.bodies else b.path
+            if root not in DYNAMIC_OK and not any(k[1] == root for k in CONSUMED_OK):
+                # a function that did not exist at review time stands under the reviewed function(s) it was split off from
+                for op_ in sorted(prog.owners_of(root)):
+                    if op_ in DYNAMIC_OK or any(k[1] == op_ for k in CONSUMED_OK):
+                        root = op_
+                        break
             if names is None and "{closure" not in b.path and root not in DYNAMIC_OK:
                 names = _evaluated_keys(prog, b, c.path.split("::")[-1], t.get("line"))
             if names is None:
